@@ -182,7 +182,16 @@ Section Sem.
       exists s', n'. split; [exact E'|exact B'].
   Qed.
 
-  (* ---- run_ok over appended lists and under set_last_balance ---- *)
+End Sem.
+
+(* ---- run_ok over appended lists and under set_last_balance ---- *)
+Section Run.
+  Variable ia : str -> aid.
+  Variable acct : str.
+  Variable c0 : str.
+  Notation run_ok := (run_ok ia acct c0).
+  Notation txn_ok := (txn_ok ia acct c0).
+
   Lemma run_ok_app : forall a b v,
     run_ok v (a ++ b) <-> run_ok v a /\ run_ok (v + qsum (map val a)) b.
   Proof.
@@ -219,4 +228,4 @@ Section Sem.
     cbn [set_last_balance]. destruct r as [|t2 r2]; [reflexivity|].
     change (map val (t :: t2 :: r2)) with (val t :: map val (t2 :: r2)). rewrite <- (IH b). reflexivity.
   Qed.
-End Sem.
+End Run.
